@@ -271,43 +271,43 @@ func aggregateC11(o options, stats []c11Stats, wall time.Duration) map[string]in
 		"distinct_nontrivial": len(sched),
 		"rule": "one evaluation = one simulated run: 2-32 client tasks (real goroutines run one at a time by the seeded scheduler, handoff invisible to the race detector) each issuing 1-8 operations (LoadQuery / ParseQuery+Validate with a rule list, then variable coercion, argument maps, document formatting; schema formatting) against one shared schema, with seeded preemption strategy, site mask and faults. " +
 			"A run is non-trivial when at least one preemption happened at a yield point inside library code; distinct = distinct hashes of the executed switch sequence (task, task-local yield, target).",
-		"samples":                    samples,
-		"runs_with_race_detector":    raceRuns,
-		"runs_without_race_detector": plainRuns,
-		"runs_skipped_schema_error":  tot.RunsSkipped,
-		"runs_by_source":             tot.RunsBySource,
-		"runs_by_strategy":           tot.RunsByStrategy,
-		"runs_by_site_mask":          tot.RunsByMask,
-		"tasks_per_run":              tot.TasksHist,
-		"operations_by_kind":         tot.OpsByKind,
-		"operations_completed":       tot.OpsDone,
-		"operations_aborted":         tot.OpsAborted,
+		"samples":                            samples,
+		"runs_with_race_detector":            raceRuns,
+		"runs_without_race_detector":         plainRuns,
+		"runs_skipped_schema_error":          tot.RunsSkipped,
+		"runs_by_source":                     tot.RunsBySource,
+		"runs_by_strategy":                   tot.RunsByStrategy,
+		"runs_by_site_mask":                  tot.RunsByMask,
+		"tasks_per_run":                      tot.TasksHist,
+		"operations_by_kind":                 tot.OpsByKind,
+		"operations_completed":               tot.OpsDone,
+		"operations_aborted":                 tot.OpsAborted,
 		"operations_cut_off_at_yield_budget": tot.OpsOverBudget,
-		"operations_compared":        tot.OpsCompared,
-		"logical_steps_yields":       tot.Steps,
-		"context_switches":           tot.Switches,
+		"operations_compared":                tot.OpsCompared,
+		"logical_steps_yields":               tot.Steps,
+		"context_switches":                   tot.Switches,
 		"fault_kinds_injected": map[string]interface{}{
-			"preemptions_inside_library_code": tot.Preemptions,
+			"preemptions_inside_library_code":       tot.Preemptions,
 			"writer_stalls_switch_inside_io_Writer": tot.WriterSwitches,
-			"aborts_fired":  tot.Aborts,
-			"stalls_fired":  tot.Stalls,
-			"faults_planned": tot.FaultsPlanned,
+			"aborts_fired":                          tot.Aborts,
+			"stalls_fired":                          tot.Stalls,
+			"faults_planned":                        tot.FaultsPlanned,
 		},
-		"mid_run_snapshot_samples":       tot.Samples,
-		"snapshots_compared":             tot.Snapshots,
-		"distinct_interleavings":         len(sched),
-		"distinct_preemption_site_pairs": len(pairs),
-		"runs_over_yield_budget":         tot.OverBudget,
+		"mid_run_snapshot_samples":                       tot.Samples,
+		"snapshots_compared":                             tot.Snapshots,
+		"distinct_interleavings":                         len(sched),
+		"distinct_preemption_site_pairs":                 len(pairs),
+		"runs_over_yield_budget":                         tot.OverBudget,
 		"cold_runs_fresh_process_concurrent_phase_first": tot.ColdRuns,
-		"probes":                         tot.Probes,
-		"probes_stuck_at_zero":           stuck,
-		"simulated_runs_per_hour":        perHour,
-		"simulated_time":                 "none: no code path reads a clock; logical time is the global yield counter (logical_steps_yields)",
-		"worker_seeds":                   seeds,
-		"seed_derivation":                "run seed = splitmix(splitmix(VERIF_SEED, worker+5000), n)",
-		"workers":                        len(stats),
-		"wall_budget_per_worker_s":       wall.Seconds(),
-		"components": map[string]string{"real": "every library package, instrumented with yield points before every statement and the map-order seam; Go race detector as history oracle", "harness": "io.Writer given to the formatter (yields / aborts inside Write), request data, sentinel reader, schema fingerprint", "stub": "none"},
+		"probes":                   tot.Probes,
+		"probes_stuck_at_zero":     stuck,
+		"simulated_runs_per_hour":  perHour,
+		"simulated_time":           "none: no code path reads a clock; logical time is the global yield counter (logical_steps_yields)",
+		"worker_seeds":             seeds,
+		"seed_derivation":          "run seed = splitmix(splitmix(VERIF_SEED, worker+5000), n)",
+		"workers":                  len(stats),
+		"wall_budget_per_worker_s": wall.Seconds(),
+		"components":               map[string]string{"real": "every library package, instrumented with yield points before every statement and the map-order seam; Go race detector as history oracle", "harness": "io.Writer given to the formatter (yields / aborts inside Write), request data, sentinel reader, schema fingerprint", "stub": "none"},
 	}
 	return map[string]interface{}{
 		"property_id": "C11", "tier": o.tier, "seed": int64(o.seed), "level": "exploration",
